@@ -9,6 +9,7 @@ import (
 	"context"
 	"encoding/hex"
 	"fmt"
+	"os"
 	"runtime"
 	"strconv"
 	"strings"
@@ -67,8 +68,29 @@ type PanicInfo struct {
 	Kind string // index-out-of-range | nil-dereference | makeslice | other
 }
 
-// guard runs f; a panic is returned with its call site (innermost frame inside /repo's module).
-func Guard(f func()) (pi *PanicInfo) {
+// Watchdog is how long a call into the code under test may take before it is declared stuck (a lock that is
+// never released, a wedged channel): generous, so that machine load alone never reaches it. VERIF_WATCHDOG_S overrides.
+var Watchdog = func() time.Duration {
+	if v, err := strconv.Atoi(os.Getenv("VERIF_WATCHDOG_S")); err == nil && v > 0 {
+		return time.Duration(v) * time.Second
+	}
+	return 20 * time.Second
+}()
+
+// Guard runs f under the watchdog; a panic is returned with its call site (innermost frame inside /repo's
+// module), a call that does not return within Watchdog as Kind "stuck" (its goroutine is abandoned).
+func Guard(f func()) *PanicInfo {
+	done := make(chan *PanicInfo, 1)
+	go func() { done <- guardSync(f) }()
+	select {
+	case pi := <-done:
+		return pi
+	case <-time.After(Watchdog):
+		return &PanicInfo{Site: "watchdog", Kind: "stuck"}
+	}
+}
+
+func guardSync(f func()) (pi *PanicInfo) {
 	defer func() {
 		if e := recover(); e != nil {
 			pi = &PanicInfo{Site: "unknown", Kind: "other"}
@@ -233,6 +255,11 @@ type Executor struct {
 	// what the last lt / tick op handed to the blockchain module and published as block requests
 	LastPosts []p2pv.BlockPost
 	LastReqs  []string
+	// liveness: Stuck is set when a call into the current component instance did not return; History is the op lines
+	// since the last reset (the replay of a stuck / probe failure)
+	Stuck   bool
+	NStuck  int
+	History []string
 }
 
 const NPeers = 12
@@ -315,13 +342,17 @@ func (l *Lru) List() *types.Blacklist        { return &types.Blacklist{} }
 func (e *Executor) drainOut() []interface{} {
 	e.seq++
 	mark := fmt.Sprintf("sentinel-%d", e.seq)
-	e.LT.PubSentinel(mark)
 	var got []interface{}
-	for x := range e.outCh {
-		if s, ok := x.(string); ok && s == mark {
-			break
+	if pi := Guard(func() {
+		e.LT.PubSentinel(mark)
+		for x := range e.outCh {
+			if s, ok := x.(string); ok && s == mark {
+				break
+			}
+			got = append(got, x)
 		}
-		got = append(got, x)
+	}); pi != nil {
+		e.Unrecovered("broadcast-publish-channel", pi, "")
 	}
 	return got
 }
@@ -332,6 +363,14 @@ func (e *Executor) TakePosts() []p2pv.BlockPost {
 }
 
 func (e *Executor) Unrecovered(path string, pi *PanicInfo, detail string) {
+	if pi.Kind == "stuck" {
+		// the call never returned: this component instance is abandoned (reset builds a fresh one)
+		e.NStuck++
+		e.Stuck = true
+		e.preds(fmt.Sprintf("C33|%s|stuck-after-peer-input", path),
+			fmt.Sprintf("no return within %v; inputs delivered so far: %s", Watchdog, strings.Join(e.History, " ; ")))
+		return
+	}
 	if (path == "blockRequestLoop" || path == "handleBroadcastReceive") && e.chain == "items" && e.nitems == 0 {
 		// the scripted blockchain module answered GetBlocks with an empty success, which the real module never
 		// does (it returns end-start+1 >= 1 items or an error): an environment assumption, not a peer input
@@ -359,8 +398,40 @@ func ints(s string) []int {
 	return o
 }
 
-// exec runs one op line; lb != nil supplies an already decoded light block for `lt` (byte-level fuzz).
+// Exec runs one op line; lb != nil supplies an already decoded light block for `lt` (byte-level fuzz).
+// After a stuck call every op up to the next reset is skipped ("skipped-after-stuck", not to be emitted).
 func (e *Executor) Exec(line string, lb *types.LightBlock) string {
+	if strings.HasPrefix(line, "reset") {
+		e.Stuck = false
+		e.History = e.History[:0]
+	}
+	if e.Stuck {
+		return "skipped-after-stuck"
+	}
+	e.History = append(e.History, line)
+	n := e.NStuck
+	res := e.exec1(line, lb)
+	if e.NStuck > n {
+		return "stuck"
+	}
+	return res
+}
+
+// lockedInt reads a counter of the component through an accessor that takes one of its locks, under the watchdog
+func (e *Executor) lockedInt(what string, f func() int) int {
+	v := -1
+	if pi := Guard(func() { v = f() }); pi != nil {
+		e.Unrecovered(what, pi, "")
+		return -1
+	}
+	return v
+}
+
+func (e *Executor) pendLen() int { return e.lockedInt("pendBlockList(pdBlockLock)", e.LT.PendLen) }
+func (e *Executor) reqLen() int  { return e.lockedInt("blockRequestList(blockReqLock)", e.LT.ReqLen) }
+func (e *Executor) msgLen() int  { return e.lockedInt("validator.msgList(msgLock)", e.LT.MsgListLen) }
+
+func (e *Executor) exec1(line string, lb *types.LightBlock) string {
 	f := strings.Fields(line)
 	if len(f) == 0 {
 		return "bad-op"
@@ -467,7 +538,7 @@ func (e *Executor) Exec(line string, lb *types.LightBlock) string {
 			lb = dec.(*types.LightBlock)
 		}
 		sender := e.IDs[atoi(f[6])%NPeers]
-		before := e.LT.PendLen()
+		before := e.pendLen()
 		p0, r0 := Logs.N("handleReceive_Panic"), Logs.N("recvLtBlk")
 		if pi := Guard(func() { e.LT.Receive(broadcast.VerifLtBlockTopic, lb, sender, sender) }); pi != nil {
 			e.Unrecovered("handleBroadcastReceive", pi, line)
@@ -483,7 +554,7 @@ func (e *Executor) Exec(line string, lb *types.LightBlock) string {
 			return "dup"
 		case len(posts) > 0:
 			return "posted " + e.Reg.Slots(posts[0].Block.Txs)
-		case e.LT.PendLen() > before:
+		case e.pendLen() > before:
 			return "queued"
 		}
 		return "dropped"
@@ -518,11 +589,11 @@ func (e *Executor) Exec(line string, lb *types.LightBlock) string {
 			reqs = append(reqs, fmt.Sprintf("%d:%d", who, q.Height))
 		}
 		e.LastReqs = reqs
-		return fmt.Sprintf("posted=%s req=%s pend=%d", JoinOr(posted, ";"), JoinOr(reqs, ","), e.LT.PendLen())
+		return fmt.Sprintf("posted=%s req=%s pend=%d", JoinOr(posted, ";"), JoinOr(reqs, ","), e.pendLen())
 	case "breq":
 		sender := e.IDs[atoi(f[1])%NPeers]
 		msg := &types.PeerPubSubMsg{MsgID: broadcast.VerifBlockReqID, ProtoMsg: types.Encode(&types.ReqInt{Height: atoi64(f[2])})}
-		before := e.LT.ReqLen()
+		before := e.reqLen()
 		p0, f0 := Logs.N("handleReceive_Panic"), Logs.N("handleBlockReq")
 		if pi := Guard(func() { e.receivePeerMsg(msg, sender) }); pi != nil {
 			e.Unrecovered("handleBroadcastReceive", pi, line)
@@ -533,7 +604,7 @@ func (e *Executor) Exec(line string, lb *types.LightBlock) string {
 		case Logs.N("handleReceive_Panic") > p0:
 			e.RecPan++
 			return "panic"
-		case e.LT.ReqLen() > before:
+		case e.reqLen() > before:
 			return "queued"
 		case sent > 0:
 			return "sent"
@@ -547,7 +618,7 @@ func (e *Executor) Exec(line string, lb *types.LightBlock) string {
 			e.Unrecovered("blockRequestLoop", pi, "reqtick")
 			return "panic"
 		}
-		return fmt.Sprintf("sent=%d failed=%d left=%d", e.countResp(), Logs.N("handleBlockReq")-f0, e.LT.ReqLen())
+		return fmt.Sprintf("sent=%d failed=%d left=%d", e.countResp(), Logs.N("handleBlockReq")-f0, e.reqLen())
 	case "bresp":
 		sender := e.IDs[3]
 		msg := &types.PeerPubSubMsg{MsgID: broadcast.VerifBlockRespID}
@@ -562,7 +633,7 @@ func (e *Executor) Exec(line string, lb *types.LightBlock) string {
 		default:
 			msg.ProtoMsg = []byte{0xff, 0xff, 0xff, 0x07}
 		}
-		m0 := e.LT.MsgListLen()
+		m0 := e.msgLen()
 		p0 := Logs.N("handleReceive_Panic")
 		if pi := Guard(func() { e.receivePeerMsg(msg, sender) }); pi != nil {
 			e.Unrecovered("handleBroadcastReceive", pi, line)
